@@ -9,6 +9,11 @@ CHECKS = {
    technique="deterministic simulation: seeded cooperative scheduler at lock/atomic granularity + porcupine linearizability; sequential histories vs reference map",
    text="Seeded search over (table kind, capacity, key family, op history, schedule). Sequential histories are cross-checked in full against a reference map after every operation; concurrent histories run under a cooperative scheduler that decides every interleaving at segment-lock and count accesses and are checked for linearizability (porcupine) against a map model with over-approximated eviction. Sampling, not proof: a clean batch is evidence.",
    note="Trusts: the verifsync shim (same semantics as sync/atomic plus yields), porcupine, and that critical sections are atomic units (no yields inside a section). Eviction legality is over-approximated, so only safety clauses are decided."),
+ "C15": dict(
+   level="exploration", design="§3 C15",
+   technique="deterministic simulation: seeded cooperative scheduler parks packs inside their consume callbacks (overlap/nesting of pooled state); dns.Msg.Pack as reference",
+   text="Seeded search over per-task pack operations and schedules: packs overlap and nest while sharing the pool; each pack is compared byte-for-byte with the library, the message is compared with a snapshot, buffers are checked for aliasing and exposed capacity, and declined messages must have produced no output. Byte parity over all message structures is sampled only.",
+   note="Trusts miekg/dns Pack as the reference and the message generator's reach; overlap happens only at the consume callback."),
 }
 
 NOT_APPLICABLE = {
